@@ -1,6 +1,7 @@
 package main
 
 import (
+	"fmt"
 	"go/token"
 	"go/types"
 
@@ -43,6 +44,7 @@ func init() {
 				a.Und(fname(fn)+"#inject-before-add", fn.Pos(), "no Window.Add call found in processItem")
 			}
 		})
+		a.Rule("shape/key-tuple-positional", 1, func() { a.ruleKeyTuplePositional() })
 		a.Rule("shape/typed-key-values", 2, func() {
 			ga := a.Named("aggregator", "GroupAggregator")
 			groups, kv := a.FieldOf(ga, "groups"), a.FieldOf(ga, "groupKeyVals")
@@ -171,5 +173,131 @@ func (a *A) ruleCommaAtDepthZero() int {
 				"the loop tracks the parenthesis depth but ends an item at every comma: a comma inside a function call's arguments splits the item in two unresolvable halves")
 		}
 	}
+	return n
+}
+
+// ruleKeyTuplePositional: GetResults restores the group columns from groupKeyVals[key] by position
+// (value i belongs to groupFields[i]). The tuple stored for a group must therefore hold exactly one
+// entry per group field — nil for a NULL or missing one: on every path through one iteration of the
+// loop over groupFields that builds it, exactly one value is appended. A field that is skipped when
+// missing shifts the later values to the left and the group reports another tuple.
+func (a *A) ruleKeyTuplePositional() int {
+	ga := a.Named("aggregator", "GroupAggregator")
+	kv := a.FieldOf(ga, "groupKeyVals")
+	gf := a.FieldOf(ga, "groupFields")
+	add := a.Method("aggregator", "GroupAggregator", "Add")
+	n := 0
+	allInstrs(add, func(in ssa.Instruction) {
+		mu, ok := in.(*ssa.MapUpdate)
+		if !ok {
+			return
+		}
+		if t := TermOf(mu.Map, nil); t.Kind != "field" || t.Field != kv {
+			return
+		}
+		n++
+		construct := fname(add) + "#key-tuple-positional"
+		// where the tuple is built: here, or in a module helper whose result is stored
+		type site struct {
+			fn  *ssa.Function
+			val ssa.Value
+		}
+		var sites []site
+		v := mu.Value
+		if c, isCall := v.(*ssa.Call); isCall && c.Call.StaticCallee() != nil && a.fnInModule(c.Call.StaticCallee()) {
+			a.calleeReturns(c, 0, func(rv ssa.Value, rf *ssa.Function) { sites = append(sites, site{rf, rv}) }, func(string) {})
+		} else {
+			sites = append(sites, site{add, v})
+		}
+		if len(sites) == 0 {
+			a.Und(construct, mu.Pos(), "cannot find where the stored tuple is built")
+			return
+		}
+		for _, s := range sites {
+			// the appends that feed the stored slice, and the range loop over groupFields they are in
+			chain := map[*ssa.Call]bool{}
+			seen := map[ssa.Value]bool{}
+			var walk func(x ssa.Value)
+			walk = func(x ssa.Value) {
+				if x == nil || seen[x] {
+					return
+				}
+				seen[x] = true
+				switch y := x.(type) {
+				case *ssa.Phi:
+					for _, e := range y.Edges {
+						walk(e)
+					}
+				case *ssa.Call:
+					if cc, ok := isBuiltinCall(y, "append"); ok {
+						chain[y] = true
+						walk(cc.Args[0])
+					}
+				}
+			}
+			walk(s.val)
+			var loop *RLoop
+			for _, l := range rangeLoops(s.fn) {
+				if l.X == nil {
+					continue
+				}
+				if t := TermOf(l.X, nil); t.Kind == "field" && t.Field == gf {
+					for c := range chain {
+						if l.Blocks[c.Block()] {
+							loop = l
+						}
+					}
+				}
+			}
+			if loop == nil {
+				a.Und(construct, mu.Pos(), "the tuple stored in groupKeyVals is not built by appends in a loop over groupFields (in %s)", fname(s.fn))
+				return
+			}
+			// min and max number of chain appends on a path through one iteration
+			type mm struct{ lo, hi int }
+			memo := map[*ssa.BasicBlock]mm{}
+			on := map[*ssa.BasicBlock]bool{}
+			var rec func(b *ssa.BasicBlock) mm
+			rec = func(b *ssa.BasicBlock) mm {
+				if b == loop.Header || !loop.Blocks[b] {
+					return mm{0, 0}
+				}
+				if on[b] {
+					return mm{0, 0}
+				}
+				if r, ok := memo[b]; ok {
+					return r
+				}
+				on[b] = true
+				here := 0
+				for _, in := range b.Instrs {
+					if c, ok := in.(*ssa.Call); ok && chain[c] {
+						here++
+					}
+				}
+				r := mm{1 << 30, 0}
+				for _, sc := range b.Succs {
+					x := rec(sc)
+					if x.lo < r.lo {
+						r.lo = x.lo
+					}
+					if x.hi > r.hi {
+						r.hi = x.hi
+					}
+				}
+				if len(b.Succs) == 0 {
+					r = mm{0, 0}
+				}
+				on[b] = false
+				r = mm{r.lo + here, r.hi + here}
+				memo[b] = r
+				return r
+			}
+			r := rec(loop.Body)
+			a.Check(r.lo == 1 && r.hi == 1, construct, mu.Pos(),
+				"exactly one value (nil for a NULL or missing field) is appended per group field, so position i is field i",
+				fmt.Sprintf("%s appends between %d and %d values per group field when it builds the tuple stored in groupKeyVals: a field that is skipped shifts the later values to the left and GetResults reports them under the wrong columns", fname(s.fn), r.lo, r.hi))
+		}
+	})
 	return n
 }
